@@ -200,6 +200,12 @@ def check(rep, ctx):
             ev_miss("load_request_schema", [k, v], "UnknownEntity", (k, v))
             ev_miss("load_response_schema", [k, v], "UnknownEntity", (k, v))
             ev_miss("load_entity_schema", [api, v, resp], "UnknownEntity", (api, v, "response"))
+    # the payload loader is for requests and responses: any other entity type is not something it can return
+    for api, vs in sorted(versions_of.items())[:12]:
+        k = key_of_api[api]
+        for tname in ("header", "data", "nested"):
+            if tname in members:
+                ev_miss("load_payload_module", [k, max(vs), members[tname]], "UnknownEntity", (k, max(vs), tname))
     known_keys = set(key_of_api.values())
     for k in sorted({-1, max(known_keys) + 1, 1000, 12345} - known_keys):
         for v in (0, k, max(0, k)):
